@@ -366,4 +366,161 @@ example : toPoly ([1, 3, 2] : List ℚ) = Polynomial.C 1 * prodRoots [-1, -2]
       rw [← Polynomial.C_1, ← Polynomial.C_add]; norm_num]
     ring
 
+/-- `minreal_sem` with the hypothesis that can actually be met by a tolerance test: it only has to
+identify equal roots *among the zeros and poles of this entry*.  (No positive tolerance satisfies
+the field-wide hypothesis of `minreal_sem`.)  Roots may be repeated: every zero cancels at most one
+pole. -/
+theorem minreal_sem_on [DecidableEq K] (close : K → K → Bool) (f : Frac K) (zeros poles : List K)
+    (n0 d0 : K) (nt dt : List K) (hn : f.num = n0 :: nt) (hd : f.den = d0 :: dt) (hd0 : d0 ≠ 0)
+    (hzeros : toPoly f.num = Polynomial.C n0 * prodRoots zeros)
+    (hpoles : toPoly f.den = Polynomial.C d0 * prodRoots poles)
+    (hclose : ∀ z ∈ zeros, ∀ p ∈ poles, close z p = true → z = p) :
+    ∃ g, minrealEntry close f zeros poles = .ok g ∧ g.WF ∧ g.sem = f.sem :=
+  minrealEntry_spec_on close f zeros poles n0 d0 nt dt hn hd hd0 hzeros hpoles hclose
+
+/-- the form the driver certifies on every call: `rootsSeparated` is a computable check. -/
+theorem minreal_sem_certified [DecidableEq K] (close : K → K → Bool) (f : Frac K)
+    (zeros poles : List K)
+    (n0 d0 : K) (nt dt : List K) (hn : f.num = n0 :: nt) (hd : f.den = d0 :: dt) (hd0 : d0 ≠ 0)
+    (hzeros : toPoly f.num = Polynomial.C n0 * prodRoots zeros)
+    (hpoles : toPoly f.den = Polynomial.C d0 * prodRoots poles)
+    (hsep : rootsSeparated close zeros poles = true) :
+    ∃ g, minrealEntry close f zeros poles = .ok g ∧ g.WF ∧ g.sem = f.sem :=
+  minreal_sem_on close f zeros poles n0 d0 nt dt hn hd hd0 hzeros hpoles
+    ((rootsSeparated_iff close zeros poles).mp hsep)
+
+/-- whatever the tolerance test does, the loop invents nothing and removes as many poles as zeros:
+the kept zeros are among the zeros, the remaining poles among the poles, and the relative degree
+is unchanged. -/
+theorem minreal_only_cancels (close : K → K → Bool) (zeros poles : List K) :
+    (∀ z ∈ (cancelRoots close zeros poles).1, z ∈ zeros)
+    ∧ (∀ p ∈ (cancelRoots close zeros poles).2, p ∈ poles)
+    ∧ (cancelRoots close zeros poles).1.length + poles.length
+        = (cancelRoots close zeros poles).2.length + zeros.length :=
+  ⟨(cancelRoots_mem close zeros poles).1, (cancelRoots_mem close zeros poles).2,
+    cancelRoots_length close zeros poles⟩
+
+/-! The code's tolerance test, `abs(z - p) < (tol or 1000 * max(eps, abs(z) * sqrt_eps))`: the
+tolerance of a zero is a function of that zero alone, relative to its own magnitude. -/
+
+theorem closeQ_iff (tol : Option ℚ) (z p : ℚ) :
+    Minreal.closeQ tol z p = true ↔ |z - p| < Minreal.tolOf tol z := by
+  unfold Minreal.closeQ
+  exact decide_eq_true_iff
+
+theorem tolOf_default (z : ℚ) :
+    Minreal.tolOf none z = 1000 * max Minreal.eps (|z| * Minreal.sqrtEps) := rfl
+
+/-- an explicit non-zero tolerance is used as given, for every zero. -/
+theorem tolOf_explicit (t : ℚ) (ht : t ≠ 0) (z : ℚ) : Minreal.tolOf (some t) z = t := by
+  simp [Minreal.tolOf, ht]
+
+/-- `tol = 0` is falsy in Python: the default is used. -/
+theorem tolOf_zero (z : ℚ) : Minreal.tolOf (some 0) z = Minreal.tolOf none z := by
+  simp [Minreal.tolOf]
+
+/-- a zero cancels a pole equal to it, at every magnitude. -/
+theorem closeQ_default_self (z : ℚ) : Minreal.closeQ none z z = true := by
+  have h : (0 : ℚ) < Minreal.eps := by unfold Minreal.eps; positivity
+  rw [closeQ_iff, tolOf_default, sub_self, abs_zero]
+  exact mul_pos (by norm_num) (lt_max_of_lt_left h)
+
+/-- a zero is never cancelled against a pole whose distance is at least `2⁻¹⁶` of the zero's own
+magnitude (and at least `2⁻⁴²`) — however large the other zeros of the entry are. -/
+theorem closeQ_default_separated (z p : ℚ) (h1 : 1 / 2 ^ 42 ≤ |z - p|)
+    (h2 : |z| / 2 ^ 16 ≤ |z - p|) : Minreal.closeQ none z p = false := by
+  rw [Bool.eq_false_iff, Ne, closeQ_iff, tolOf_default, not_lt]
+  have hz : 0 ≤ |z| := abs_nonneg z
+  rcases max_cases Minreal.eps (|z| * Minreal.sqrtEps) with ⟨h, _⟩ | ⟨h, _⟩
+  · rw [h]; unfold Minreal.eps; norm_num at h1 ⊢; linarith
+  · rw [h]; unfold Minreal.sqrtEps; norm_num at h2 ⊢; linarith
+
+theorem closeQI_iff (tol : Option ℚ) (z p : QI) :
+    Minreal.closeQI tol z p = true ↔ Minreal.normSqQI (z - p) < Minreal.tolSqOf tol z := by
+  unfold Minreal.closeQI
+  exact decide_eq_true_iff
+
+/-- the Gaussian-rational test: a zero cancels a pole equal to it. -/
+theorem closeQI_default_self (z : QI) : Minreal.closeQI none z z = true := by
+  have h : (0 : ℚ) < Minreal.eps * Minreal.eps := by unfold Minreal.eps; positivity
+  rw [closeQI_iff]
+  have h0 : Minreal.normSqQI (z - z) = 0 := by simp [Minreal.normSqQI]
+  rw [h0]
+  show 0 < 1000000 * max (Minreal.eps * Minreal.eps) (Minreal.normSqQI z * Minreal.eps)
+  exact mul_pos (by norm_num) (lt_max_of_lt_left h)
+
+/-- on real roots the Gaussian-rational test is the rational one (`t > 0` compared on squares). -/
+theorem closeQI_real_default (z p : ℚ) :
+    Minreal.closeQI none ⟨z, 0⟩ ⟨p, 0⟩ = Minreal.closeQ none z p := by
+  rw [Bool.eq_iff_iff, closeQI_iff, closeQ_iff, tolOf_default]
+  have he : (0 : ℚ) < Minreal.eps := by unfold Minreal.eps; positivity
+  have hs : Minreal.sqrtEps * Minreal.sqrtEps = Minreal.eps := by
+    unfold Minreal.sqrtEps Minreal.eps; norm_num
+  have hs0 : (0 : ℚ) < Minreal.sqrtEps := by unfold Minreal.sqrtEps; positivity
+  have hn : Minreal.normSqQI ((⟨z, 0⟩ : QI) - ⟨p, 0⟩) = |z - p| * |z - p| := by
+    simp [Minreal.normSqQI, abs_mul_abs_self]
+  have ht : Minreal.tolSqOf none (⟨z, 0⟩ : QI)
+      = (1000 * max Minreal.eps (|z| * Minreal.sqrtEps))
+        * (1000 * max Minreal.eps (|z| * Minreal.sqrtEps)) := by
+    show 1000000 * max (Minreal.eps * Minreal.eps) (Minreal.normSqQI ⟨z, 0⟩ * Minreal.eps) = _
+    have hz : Minreal.normSqQI (⟨z, 0⟩ : QI) = |z| * |z| := by
+      simp [Minreal.normSqQI, abs_mul_abs_self]
+    rw [hz]
+    have hz0 : 0 ≤ |z| := abs_nonneg z
+    rcases le_total Minreal.eps (|z| * Minreal.sqrtEps) with h | h
+    · have h2 : Minreal.eps * Minreal.eps ≤ |z| * |z| * Minreal.eps := by
+        calc Minreal.eps * Minreal.eps ≤ (|z| * Minreal.sqrtEps) * (|z| * Minreal.sqrtEps) :=
+              mul_le_mul h h he.le (le_trans he.le h)
+          _ = |z| * |z| * Minreal.eps := by rw [← hs]; ring
+      rw [max_eq_right h, max_eq_right h2, ← hs]; ring
+    · have h2 : |z| * |z| * Minreal.eps ≤ Minreal.eps * Minreal.eps := by
+        calc |z| * |z| * Minreal.eps = (|z| * Minreal.sqrtEps) * (|z| * Minreal.sqrtEps) := by
+              rw [← hs]; ring
+          _ ≤ Minreal.eps * Minreal.eps :=
+              mul_le_mul h h (mul_nonneg hz0 hs0.le) he.le
+      rw [max_eq_left h, max_eq_left h2]; ring
+  rw [hn, ht]
+  have hT : 0 < 1000 * max Minreal.eps (|z| * Minreal.sqrtEps) :=
+    mul_pos (by norm_num) (lt_max_of_lt_left he)
+  exact (mul_self_lt_mul_self_iff (abs_nonneg _) hT.le).symm
+
+/-- rational roots that are pairwise equal or separated relative to the zero's own size: `minreal`
+with the default tolerance returns the same rational function. -/
+theorem minreal_sem_graded (f : Frac ℚ) (zeros poles : List ℚ)
+    (n0 d0 : ℚ) (nt dt : List ℚ) (hn : f.num = n0 :: nt) (hd : f.den = d0 :: dt) (hd0 : d0 ≠ 0)
+    (hzeros : toPoly f.num = Polynomial.C n0 * prodRoots zeros)
+    (hpoles : toPoly f.den = Polynomial.C d0 * prodRoots poles)
+    (hsep : ∀ z ∈ zeros, ∀ p ∈ poles, z ≠ p → 1 / 2 ^ 42 ≤ |z - p| ∧ |z| / 2 ^ 16 ≤ |z - p|) :
+    ∃ g, minrealEntry (Minreal.closeQ none) f zeros poles = .ok g ∧ g.WF ∧ g.sem = f.sem := by
+  refine minreal_sem_on _ f zeros poles n0 d0 nt dt hn hd hd0 hzeros hpoles ?_
+  intro z hz p hp hc
+  by_contra hne
+  obtain ⟨h1, h2⟩ := hsep z hz p hp hne
+  rw [closeQ_default_separated z p h1 h2] at hc
+  cases hc
+
+/-- non-vacuity, roots six orders of magnitude apart: zeros `-1, -2²¹`, poles `-1, -3`.  The zero
+`-1` is not cancelled against the pole `-3` (an entry-wide tolerance taken from the largest zero,
+`1000 · 2²¹ · 2⁻²⁶ ≈ 31`, would cancel it), while at the magnitude `2²¹` a distance of `3` is
+inside the tolerance. -/
+example : rootsSeparated (Minreal.closeQ none) [-1, -2097152] [-1, -3] = true
+    ∧ Minreal.closeQ none (-1) (-3) = false
+    ∧ Minreal.closeQ none (-2097152) (-2097155) = true
+    ∧ (cancelRoots (Minreal.closeQ none) [-1, -2097152] [-1, -3]) = ([-2097152], [-3]) := by
+  decide +kernel
+
+/-- non-vacuity, a repeated pole: the zero `2` cancels one of the two poles `2`. -/
+example : rootsSeparated (Minreal.closeQ (some (1 / 100))) [2] [2, 2, 5] = true
+    ∧ cancelRoots (Minreal.closeQ (some (1 / 100))) [2] [2, 2, 5] = ([], [2, 5]) := by
+  decide +kernel
+
+/-- non-vacuity, Gaussian-rational roots: the pair `-1 ± 2i` is common, the pair `-1 ± i` (same real
+part) is not. -/
+example : rootsSeparated (Minreal.closeQI none)
+      [(⟨-1, 2⟩ : QI), ⟨-1, -2⟩] [(⟨-1, 1⟩ : QI), ⟨-1, -1⟩, ⟨-1, -2⟩, ⟨-1, 2⟩] = true
+    ∧ cancelRoots (Minreal.closeQI none)
+      [(⟨-1, 2⟩ : QI), ⟨-1, -2⟩] [(⟨-1, 1⟩ : QI), ⟨-1, -1⟩, ⟨-1, -2⟩, ⟨-1, 2⟩]
+        = ([], [⟨-1, 1⟩, ⟨-1, -1⟩]) := by
+  decide +kernel
+
 end CtrlVerif.C15
